@@ -51,6 +51,7 @@ class Result:
         self.stats = collections.Counter()
         self.keys = []            # digests of distinct non-trivial comparisons
         self.sched = None         # digest of the interleaving
+        self.digest = None        # digest of the whole recorded history (determinism self-test)
         self.ctx = []             # fault contexts reached
 
     def v(self, clause, sig, msg, **extra):
@@ -149,6 +150,42 @@ def _strip(case, limit=600):
             return {k: cut(v) for k, v in x.items()}
         return x
     return cut(case)
+
+
+def _digest_worker(args):
+    pid, tier, base, idxs = args
+    mod = load_prop(pid)
+    out = {}
+    for i in idxs:
+        seed = run_seed(base, pid, tier, i)
+        rng = random.Random(seed)
+        try:
+            case = mod.make_case(i, rng, tier)
+            if case is None:
+                out[i] = "none"
+                continue
+            res = mod.check(case)
+            h = hashlib.sha256(json.dumps(case, sort_keys=True, default=str).encode())
+            h.update(repr((res.digest, res.sched, sorted((v.clause, v.sig, v.msg) for v in res.violations),
+                           sorted(res.stats.items()), sorted(res.keys))).encode())
+            out[i] = h.hexdigest()[:20]
+        except Exception as e:
+            out[i] = "EXC:%s:%s" % (type(e).__name__, str(e)[:80])
+    return out
+
+
+def digests(pid, tier, lo, hi, jobs):
+    """history digests of runs lo..hi-1 (for the determinism self-test)"""
+    base = int(os.environ.get("VERIF_SEED", DEFAULT_SEED))
+    idxs = list(range(lo, hi))
+    if jobs <= 1:
+        return _digest_worker((pid, tier, base, idxs))
+    ctx = multiprocessing.get_context("fork")
+    out = {}
+    with ProcessPoolExecutor(max_workers=jobs, mp_context=ctx) as ex:
+        for r in ex.map(_digest_worker, [(pid, tier, base, idxs[k::jobs]) for k in range(jobs)]):
+            out.update(r)
+    return out
 
 
 def load_known():
